@@ -1193,11 +1193,17 @@ const tmpRoot = "/verif/work/C18tmp"
 
 var fileStems = []string{"doc", "doc", "my conf", "cfg-ü", "a.b", "x(1)"}
 
+// view is one way of looking at a loaded config: [0] the generic targets
+// (obs.Top), [1..] the fitted typed targets.
+type view struct {
+	err error
+	s   string
+	val reflect.Value
+}
+
 type observed struct {
-	ok    bool
-	top   string // obs.Top
-	typed string // renderTyped of the fitted target
-	tval  reflect.Value
+	ok    bool // loaded and observed without panic
+	views []view
 }
 
 func clip(s string) string {
@@ -1207,32 +1213,29 @@ func clip(s string) string {
 	return s
 }
 
-// observe loads nothing itself: it unpacks an already loaded config into the
-// generic targets and into a fresh value of tt.
-func observe(res *harness.R, c *ucfg.Config, tt reflect.Type, opts []ucfg.Option, who, ctx string) (o observed) {
+// observe unpacks an already loaded config into the generic targets and into
+// a fresh value of every fitted type.
+func observe(res *harness.R, c *ucfg.Config, types []reflect.Type, opts []ucfg.Option, who, ctx string) (o observed) {
 	panicked, pv, where := harness.Safe(func() {
 		top, err := obs.Top(c, opts...)
 		res.Eval(2)
-		if err != nil {
-			res.Violate("generic-unpack-error:"+who, "%s: Unpack into generic targets failed: %v; %s", who, err, ctx)
-			return
+		o.views = append(o.views, view{err: err, s: top})
+		for _, tt := range types {
+			pv := reflect.New(tt)
+			err := c.Unpack(pv.Interface(), opts...)
+			res.Eval(1)
+			v := view{err: err}
+			if err == nil {
+				var b strings.Builder
+				renderTyped(&b, pv.Elem())
+				v.s, v.val = b.String(), pv.Elem()
+			}
+			o.views = append(o.views, v)
 		}
-		o.top = top
-		pv := reflect.New(tt)
-		err = c.Unpack(pv.Interface(), opts...)
-		res.Eval(1)
-		if err != nil {
-			res.Violate("typed-unpack-error:"+who, "%s: Unpack into fitted type %v failed: %v; %s", who, tt, err, ctx)
-			return
-		}
-		var b strings.Builder
-		renderTyped(&b, pv.Elem())
-		o.typed = b.String()
-		o.tval = pv.Elem()
 		o.ok = true
 	})
 	if panicked {
-		res.Violate("panic:Unpack", "%s: panic %q at %s; type %v; %s", who, pv, where, tt, ctx)
+		res.Violate("panic:Unpack", "%s: panic %q at %s; types %v; %s", who, pv, where, types, ctx)
 		o.ok = false
 	}
 	return
@@ -1299,7 +1302,19 @@ func (check) Run(seed int64, tier string, idx int, verbose bool) harness.Result 
 	}
 
 	ft := &fitter{r: r, res: res}
-	tt := ft.fit([]*model.Node{tree}, false, true)
+	types := []reflect.Type{ft.fit([]*model.Node{tree}, false, true), ft.fit([]*model.Node{tree}, false, true)}
+	viewName := func(k int) string {
+		if k == 0 {
+			return "generic"
+		}
+		return "typed"
+	}
+	viewDesc := func(k int) string {
+		if k == 0 {
+			return "Unpack into map and slice"
+		}
+		return fmt.Sprintf("Unpack into %v", types[k-1])
+	}
 
 	stem := fileStems[r.Intn(len(fileStems))]
 	res.SetAdd("file_stem", stem)
@@ -1318,7 +1333,7 @@ func (check) Run(seed int64, tier string, idx int, verbose bool) harness.Result 
 		res.Key(string(text))
 	}
 	if idx < 2 {
-		res.Sample = map[string]interface{}{"document": string(text), "typed_target": tt.String(), "vars": g.allVars}
+		res.Sample = map[string]interface{}{"document": string(text), "typed_targets": fmt.Sprint(types), "vars": g.allVars}
 	}
 
 	for _, cb := range combos {
@@ -1354,24 +1369,41 @@ func (check) Run(seed int64, tier string, idx int, verbose bool) harness.Result 
 				okAll = false
 				continue
 			}
-			mem[i] = observe(res, c, tt, cb.opts, l.name+".NewConfig", ctx)
+			mem[i] = observe(res, c, types, cb.opts, l.name+".NewConfig", ctx)
 			okAll = okAll && mem[i].ok
 		}
-		if okAll {
+		for k := 0; okAll && k <= len(types); k++ {
 			// three-way, then against the generating tree
-			if mem[0].top != mem[1].top || mem[1].top != mem[2].top {
-				res.Violate("frontends-disagree:generic", "yaml=%s json=%s hjson=%s want=%s; %s", mem[0].top, mem[1].top, mem[2].top, wantTop, ctx)
-			} else if mem[0].top != wantTop {
-				sig := "all-frontends-differ-from-document:generic"
-				if cb.varExp && g.hasRef {
-					sig += "-varexp"
+			y, j, h := mem[0].views[k], mem[1].views[k], mem[2].views[k]
+			nerr := 0
+			for _, v := range []view{y, j, h} {
+				if v.err != nil {
+					nerr++
 				}
-				res.Violate(sig, "all three give %s, the document says %s; %s", mem[0].top, wantTop, ctx)
 			}
-			if mem[0].typed != mem[1].typed || mem[1].typed != mem[2].typed {
-				res.Violate("frontends-disagree:typed", "type %v: yaml=%s json=%s hjson=%s; %s", tt, mem[0].typed, mem[1].typed, mem[2].typed, ctx)
-			} else if d := matchTyped(mem[0].tval, want, ""); d != "" {
-				res.Violate("all-frontends-differ-from-document:typed", "type %v: %s; value %s; %s", tt, d, mem[0].typed, ctx)
+			switch {
+			case nerr == 3:
+				res.Violate(viewName(k)+"-unpack-error:all-loaders", "%s fails for all three front-ends: yaml=%v json=%v hjson=%v; %s", viewDesc(k), y.err, j.err, h.err, ctx)
+			case nerr > 0:
+				res.Violate("frontends-disagree:"+viewName(k)+"-error", "%s: yaml err=%v json err=%v hjson err=%v; %s", viewDesc(k), y.err, j.err, h.err, ctx)
+			case y.s != j.s || j.s != h.s:
+				res.Violate("frontends-disagree:"+viewName(k), "%s: yaml=%s json=%s hjson=%s; %s", viewDesc(k), y.s, j.s, h.s, ctx)
+			case k == 0:
+				if y.s != wantTop {
+					sig := "all-frontends-differ-from-document:generic"
+					if cb.varExp && g.hasRef {
+						sig += "-varexp"
+					}
+					res.Violate(sig, "all three give %s, the document says %s; %s", y.s, wantTop, ctx)
+				}
+			default:
+				if d := matchTyped(y.val, want, ""); d != "" {
+					sig := "all-frontends-differ-from-document:typed"
+					if cb.varExp && g.hasRef {
+						sig += "-varexp"
+					}
+					res.Violate(sig, "%s: %s; value %s; %s", viewDesc(k), d, y.s, ctx)
+				}
 			}
 		}
 
@@ -1386,15 +1418,17 @@ func (check) Run(seed int64, tier string, idx int, verbose bool) harness.Result 
 				res.Violate("loader-error:"+l.name+"-withfile", "%s.NewConfigWithFile returned (%v, %v); %s", l.name, c, err, ctx)
 				continue
 			}
-			fo := observe(res, c, tt, cb.opts, l.name+".NewConfigWithFile", ctx)
+			fo := observe(res, c, types, cb.opts, l.name+".NewConfigWithFile", ctx)
 			if !fo.ok || !mem[i].ok {
 				continue
 			}
-			if fo.top != mem[i].top {
-				res.Violate("withfile-differs-from-memory:"+l.name, "generic: file=%s memory=%s; %s", fo.top, mem[i].top, ctx)
-			}
-			if fo.typed != mem[i].typed {
-				res.Violate("withfile-differs-from-memory:"+l.name, "type %v: file=%s memory=%s; %s", tt, fo.typed, mem[i].typed, ctx)
+			for k := range fo.views {
+				f, m := fo.views[k], mem[i].views[k]
+				if (f.err != nil) != (m.err != nil) {
+					res.Violate("withfile-differs-from-memory:"+l.name, "%s: file err=%v memory err=%v; %s", viewDesc(k), f.err, m.err, ctx)
+				} else if f.err == nil && f.s != m.s {
+					res.Violate("withfile-differs-from-memory:"+l.name, "%s: file=%s memory=%s; %s", viewDesc(k), f.s, m.s, ctx)
+				}
 			}
 		}
 	}
@@ -1447,6 +1481,9 @@ var faultKinds = []faultKind{
 	{name: "validate-max-float", good: func() *model.Node { return model.P(0.5) }, val: func() *model.Node { return model.P(2.5) }, leaf: tFloat64, tag: "max=1", needKey: true},
 	{name: "validate-positive", good: func() *model.Node { return model.P(int64(5)) }, val: func() *model.Node { return model.P(int64(-1)) }, leaf: tInt64, tag: "positive", needKey: true},
 	{name: "validate-nonzero-string", good: func() *model.Node { return model.P("s") }, val: func() *model.Node { return model.P("") }, leaf: tString, tag: "nonzero", needKey: true},
+	{name: "validate-nonzero-list", good: func() *model.Node { return model.List(model.P(int64(1))) }, val: func() *model.Node { return model.List() }, leaf: reflect.SliceOf(tInt64), tag: "nonzero", needKey: true},
+	{name: "validate-required-list", good: func() *model.Node { return model.List(model.P("s")) }, val: func() *model.Node { return model.List() }, leaf: reflect.SliceOf(tString), tag: "required", needKey: true},
+	{name: "validate-nonzero-object", good: func() *model.Node { return model.Dict().Set("k", model.P(int64(1))) }, val: func() *model.Node { return model.Dict() }, leaf: reflect.MapOf(tString, tIface), tag: "nonzero", needKey: true},
 	{name: "validate-required-null", good: func() *model.Node { return model.P("s") }, val: func() *model.Node { return model.Nil() }, leaf: reflect.PtrTo(tString), tag: "required", needKey: true},
 }
 
@@ -1715,21 +1752,26 @@ func faultPhase(res *harness.R, r *rand.Rand, g *docGen, tree *model.Node, dir, 
 			class += ":nested-setting"
 		}
 		var lacking []int
+		nLoaded := 0
 		for i := range loaders {
-			if fileOut[i].loaded && !strings.Contains(fileOut[i].err.Error(), files[i]) {
-				lacking = append(lacking, i)
+			if fileOut[i].loaded {
+				nLoaded++
+				if !strings.Contains(fileOut[i].err.Error(), files[i]) {
+					lacking = append(lacking, i)
+				}
 			}
 		}
-		for _, i := range lacking {
+		for k, i := range lacking {
 			who := loaders[i].name
-			if len(lacking) == len(loaders) {
-				if i > 0 {
+			if len(lacking) == nLoaded && nLoaded > 1 {
+				// every front-end that loaded the file is affected: go-ucfg's core, not a front-end
+				if k > 0 {
 					continue
 				}
 				who = "all-loaders"
 			}
 			res.Violate("error-lacks-source:"+who+":"+class, "%s.NewConfigWithFile(%q): Unpack error %q does not mention the file (%d of %d loaders affected); %s",
-				loaders[i].name, files[i], fileOut[i].err.Error(), len(lacking), len(loaders), ctx)
+				loaders[i].name, files[i], fileOut[i].err.Error(), len(lacking), nLoaded, ctx)
 		}
 		for i, l := range loaders {
 			if fileOut[i].loaded {
